@@ -158,7 +158,7 @@ func returnValues(fn *ssa.Function) []ssa.Value {
 
 // checkSortSearchSites applies the sort.Search predicate rule to every module call site; used by C16 (and cross-referenced by C04/C06).
 func (c *Ctx) checkSortSearchSites(ruleID string, only func(fn *ssa.Function) bool, min int) {
-	ru := c.R.Rule(ruleID, "every sort.Search predicate is an order comparison target<=elem / target<elem (monotone false→true over an ascending slice), never an equality test", "E11 shape rule on the predicate closure", min)
+	ru := c.R.Rule(ruleID, "every sort.Search predicate is an order comparison target<=elem / target<elem (monotone false→true over an ascending slice), never an equality test; it indexes the very slice whose length bounds the search (with the same offset when the search runs over a tail), and the result of a search over a tail is re-based (offset added) before any other use", "E11 shape rule on the predicate closure + E3 provenance of the searched slice and of the result's uses", min)
 	search := c.fo(ru, "sort", "Search")
 	if search == nil {
 		return
@@ -181,6 +181,61 @@ func (c *Ctx) checkSortSearchSites(ruleID string, only func(fn *ssa.Function) bo
 				ru.Undecided(key, c.whereI(call.Instr), "predicate has no return")
 				continue
 			}
+			// a search over a tail (sort.Search(len(s)-lo, …)) yields a position relative to lo: it becomes a position in
+			// s only once lo is added
+			if _, lo := searchedSlice(call.Arg(0)); lo != nil {
+				if rv := call.Value(); rv != nil && rv.Referrers() != nil {
+					for _, r := range *rv.Referrers() {
+						if _, isDbg := r.(*ssa.DebugRef); isDbg {
+							continue
+						}
+						okUse := false
+						if bo, isBo := r.(*ssa.BinOp); isBo && bo.Op == token.ADD {
+							other := bo.X
+							if other == rv {
+								other = bo.Y
+							}
+							okUse = sameRef(other, lo, 0) || core.Strip(other) == core.Strip(lo)
+						}
+						if !okUse {
+							ru.Fail(key+"|relative position", c.whereI(r), "the search runs over the tail that starts at "+short(core.Term(lo), 40)+", so its result counts from there; it is used here without adding that offset back: as a position in the whole slice it falls short, and the entries between it and the real end are never looked at")
+						}
+					}
+				}
+			}
+			// the predicate looks at the slice whose length bounds the search: sort.Search(len(s), func(i) … s[i] …),
+			// or, over a tail, sort.Search(len(s)-lo, func(i) … s[lo+i] …)
+			if sv, lo := searchedSlice(call.Arg(0)); sv != nil && len(pred.Params) > 0 {
+				for _, pb := range pred.Blocks {
+					for _, in := range pb.Instrs {
+						var x, idx ssa.Value
+						switch ia := in.(type) {
+						case *ssa.IndexAddr:
+							x, idx = ia.X, ia.Index
+						case *ssa.Index:
+							x, idx = ia.X, ia.Index
+						default:
+							continue
+						}
+						if !dependsOnParam(idx, pred, 0) {
+							continue
+						}
+						if _, isSlice := x.Type().Underlying().(*types.Slice); !isSlice {
+							continue
+						}
+						ib, ioff := affineOf(idx)
+						okIdx := false
+						if lo == nil {
+							okIdx = ib == ssa.Value(pred.Params[0]) && ioff == 0
+						} else if bo, isBo := conversionsOnly(idx).(*ssa.BinOp); isBo && bo.Op == token.ADD {
+							okIdx = (sameRef(bo.X, lo, 0) && core.Strip(bo.Y) == ssa.Value(pred.Params[0])) || (sameRef(bo.Y, lo, 0) && core.Strip(bo.X) == ssa.Value(pred.Params[0]))
+						}
+						if !sameRef(x, sv, 0) || !okIdx {
+							ru.Fail(key+"|searched slice", c.whereI(in), "the predicate indexes "+short(core.Term(x), 50)+" while the search runs over the length of "+short(core.Term(sv), 50)+" (or with another offset): the position found does not belong to the slice it is then used on, entries of other keys fall inside the range")
+						}
+					}
+				}
+			}
 			for _, rv := range rets {
 				a := orderAtom(rv, false)
 				switch a.kind {
@@ -202,6 +257,50 @@ func (c *Ctx) checkSortSearchSites(ruleID string, only func(fn *ssa.Function) bo
 			}
 		}
 	}
+}
+
+// searchedSlice: n is len(s) (lo == nil) or len(s) - lo: the slice a binary search over n positions runs on.
+func searchedSlice(n ssa.Value) (s ssa.Value, lo ssa.Value) {
+	n = conversionsOnly(n)
+	if bo, ok := n.(*ssa.BinOp); ok && bo.Op == token.SUB {
+		if sv, _ := searchedSlice(bo.X); sv != nil {
+			return sv, bo.Y
+		}
+		return nil, nil
+	}
+	cv, ok := n.(*ssa.Call)
+	if !ok {
+		return nil, nil
+	}
+	if b, isB := cv.Call.Value.(*ssa.Builtin); !isB || b.Name() != "len" || len(cv.Call.Args) != 1 {
+		return nil, nil
+	}
+	if _, isSlice := cv.Call.Args[0].Type().Underlying().(*types.Slice); !isSlice {
+		return nil, nil
+	}
+	return cv.Call.Args[0], nil
+}
+
+// sameRef: two expressions denote the same storage or value: the same SSA value once cells and captured variables are
+// seen through, or loads of the same field / element path of such values.
+func sameRef(a, b ssa.Value, depth int) bool {
+	if depth > 6 {
+		return false
+	}
+	a, b = core.Strip(a), core.Strip(b)
+	if a == b {
+		return true
+	}
+	la, oka := a.(*ssa.UnOp)
+	lb, okb := b.(*ssa.UnOp)
+	if oka && okb && la.Op == token.MUL && lb.Op == token.MUL {
+		fa, okfa := la.X.(*ssa.FieldAddr)
+		fb, okfb := lb.X.(*ssa.FieldAddr)
+		if okfa && okfb && fa.Field == fb.Field {
+			return sameRef(fa.X, fb.X, depth+1)
+		}
+	}
+	return false
 }
 
 func checkC16(c *Ctx) {
@@ -281,6 +380,20 @@ func checkC16(c *Ctx) {
 				c.R.Fn(c.fname(less))
 			}
 		}
+		// several searches over the same field (the first entry of a user, then the end of its run) read it several times
+		uniq := func(in []string) []string {
+			seen := map[string]bool{}
+			var out []string
+			for _, x := range in {
+				if !seen[x] {
+					seen[x] = true
+					out = append(out, x)
+				}
+			}
+			sortStrings(out)
+			return out
+		}
+		lessFields, predFields = uniq(lessFields), uniq(predFields)
 		key := "sort key of the table built by auth.FileHandler vs search key of its Authenticate"
 		switch {
 		case n == 0 && len(predFields) > 0 && sortsOther != "":
